@@ -52,6 +52,7 @@ type Obligation struct {
 	NAssume int
 	Desc    string
 	Fn      string
+	TimeoutS int // solver time limit for this obligation if larger than the run's default ("timeout N" in the contract)
 	// filled by discharge
 	Status  string // "unsat" (discharged) | "sat" | "unknown" | "timeout" | "error"
 	Solver  string
@@ -130,6 +131,9 @@ func (p *Proof) assume(guard, fact *Term) {
 
 func (p *Proof) oblige(name, kind string, pos token.Pos, guard, goal *Term, desc string) *Obligation {
 	o := &Obligation{Name: name, Kind: kind, Guard: guard, Goal: goal, NAssume: len(p.assumptions), Desc: desc, Fn: p.fname}
+	if p.con != nil {
+		o.TimeoutS = p.con.TimeoutS
+	}
 	if pos.IsValid() {
 		o.Pos = p.eng.fset.Position(pos)
 	}
